@@ -45,9 +45,10 @@ Fixpoint sw_rstrip_rev (rl : list node) : res (list node) :=
   | x :: r => if is_ws x then sw_rstrip_rev r else Ok rl
   end.
 
+(* first: if len(tlist.tokens) < 2: return self._stripws_default(tlist)   (fix of finding C07-RX-1) *)
 Definition sw_parenthesis (l : list node) : res (list node) :=
   match l with
-  | [] => Err IndexError
+  | [] | [_] => Ok (sw_default l false true)
   | a :: l1 =>
       l2 <- sw_pop1 a l1 ;;
       match rev l2 with
